@@ -66,6 +66,21 @@ def tmpdir():
     return _TMP[0]
 
 
+_STATE_DIRS = []
+
+
+def state_dir():
+    """A fresh scratch directory for one state (targets are overwritten in place, as a user would:
+    what another history left at the same path must not be there). The three most recent ones
+    are kept, older ones removed."""
+    base = tmpdir()
+    d = tempfile.mkdtemp(prefix="s", dir=base)
+    _STATE_DIRS.append(d)
+    while len(_STATE_DIRS) > 3:
+        shutil.rmtree(_STATE_DIRS.pop(0), ignore_errors=True)
+    return d
+
+
 def strip_generator(tree_or_root):
     root = tree_or_root.getroot() if hasattr(tree_or_root, "getroot") else tree_or_root
     for g in root.iter("{%s}generator" % NS["meta"]):
@@ -158,7 +173,7 @@ class Model:
 
 
 class State:
-    __slots__ = ("doc", "model", "exc", "diverged", "pre", "depth", "saved", "last_target", "last_kind", "opened_as", "others", "deleted", "pretty")
+    __slots__ = ("doc", "model", "exc", "diverged", "pre", "depth", "saved", "last_target", "last_kind", "opened_as", "others", "deleted", "pretty", "dir", "own_path")
 
 
 def seed_specs():
@@ -202,6 +217,8 @@ class PackageMachine:
         st.saved = False
         st.last_target = None
         st.last_kind = None
+        st.dir = state_dir()
+        st.own_path = False  # the document was opened from a path inside st.dir: saving in place is allowed
         st.others = []
         st.deleted = False
         st.pretty = False
@@ -236,7 +253,7 @@ class PackageMachine:
             st.model = Model(read_zip(io.BytesIO(data)))
             st.opened_as = "bytesio"
         elif kind == "folder":
-            folder = os.path.join(tmpdir(), f"seed_{name}.folder")
+            folder = os.path.join(st.dir, f"seed_{name}.folder")
             if os.path.isdir(folder):
                 shutil.rmtree(folder)
             with zipfile.ZipFile(SAMPLES / name) as zf:
@@ -244,6 +261,7 @@ class PackageMachine:
             st.doc = Document(folder)
             st.model = Model(read_folder(folder))
             st.opened_as = "folder"
+            st.own_path = True
         return st
 
     # ------------------------------------------------------------ alphabet
@@ -252,11 +270,13 @@ class PackageMachine:
         if alphabet in ("c03", "c03s"):
             ops += [("touch", "content"), ("touch", "styles"), ("touch", "meta"), ("touch", "manifest"), ("touch", "settings")]
             ops += [("edit_body",), ("edit_meta",), ("insert_style",), ("set_part_xml",), ("set_part_bin",), ("del_part_bin",)]
-            ops += [("add_file", "path"), ("add_file", "io"), ("clone",)]
+            ops += [("add_file", "path"), ("add_file", "io"), ("clone",), ("set_mimetype",)]
             if self._object_parts(st):
                 ops += [("edit_object_part",)]
             ops += [("save", "zip"), ("save", "bytesio"), ("save", "folder"), ("save", "folder-default"), ("save", "zip-pretty"), ("save_xml",)]
             ops = [o for o in ops if not (o[0] == "save_xml" and getattr(st, "deleted", False))]
+            if st.own_path:
+                ops.append(("save", "inplace"))
         elif alphabet == "c04":
             ops += [("add_file", "path"), ("add_file", "io"), ("add_file", "io2"), ("del_part_bin",), ("del_part_added",), ("image_frame",), ("merge_styles",), ("clone",), ("edit_body",), ("touch", "manifest")]
             ops += [("save", "zip"), ("save", "bytesio")]
@@ -317,6 +337,14 @@ class PackageMachine:
                 data = b'<?xml version="1.0" encoding="UTF-8"?>\n' + etree.tostring(alt)
                 doc.set_part("content.xml", data)
                 m.parts["content.xml"] = ("xml", parse(data))
+            elif name == "set_mimetype":
+                # the document becomes a template (or a plain document again); the mimetype part must say so
+                cur = m.parts["mimetype"][1].decode()
+                new = cur[: -len("-template")] if cur.endswith("-template") else cur + "-template"
+                doc.mimetype = new
+                m.parts["mimetype"] = ("bin", new.encode())
+                if doc.mimetype != new:
+                    raise RuntimeError(f"mimetype reads back {doc.mimetype!r} after being set to {new!r}")
             elif name == "edit_object_part":
                 pn = self._object_parts(st)[0]
                 part = doc.get_part(pn)
@@ -372,6 +400,7 @@ class PackageMachine:
             elif name == "clone":
                 st.others.append(doc)
                 st.doc = doc.clone
+                st.own_path = False  # a clone has no place of its own
             elif name == "save":
                 self._save(st, op[1])
             elif name == "save_xml":
@@ -382,14 +411,17 @@ class PackageMachine:
                     st.doc = Document(io.BytesIO(st.last_target.getvalue()))
                     st.model = Model(read_zip(io.BytesIO(st.last_target.getvalue())))
                     st.opened_as = "bytesio"
+                    st.own_path = False
                 elif st.last_kind == "zip":
                     st.doc = Document(st.last_target)
                     st.model = Model(read_zip(st.last_target))
                     st.opened_as = "zip-path"
+                    st.own_path = True
                 elif st.last_kind == "folder":
                     st.doc = Document(st.last_target + ".folder")
                     st.model = Model(read_folder(st.last_target + ".folder"))
                     st.opened_as = "folder"
+                    st.own_path = True
                 st.saved = False
             else:
                 raise AssertionError(op)
@@ -422,25 +454,30 @@ class PackageMachine:
 
     def _save(self, st, kind):
         st.pretty = False
-        d = tmpdir()
-        base = os.path.join(d, f"out_{st.depth}")
-        if kind == "zip":
+        # one target per packaging inside the state's own directory: a second save of the same kind
+        # overwrites the first, as a user saving again would
+        base = os.path.join(st.dir, "out")
+        if kind == "inplace":
+            path = str(st.doc.container.path)
+            if st.opened_as == "folder":
+                st.doc.save(packaging="folder", pretty=False)
+                target = path[: -len(".folder")] if path.endswith(".folder") else path
+                kind = "folder"
+            else:
+                st.doc.save(pretty=False)
+                target = path
+                kind = "zip"
+        elif kind == "zip":
             target = base + ".odx"
-            if os.path.exists(target):
-                os.remove(target)
             st.doc.save(target, pretty=False)
         elif kind == "bytesio":
             target = io.BytesIO()
             st.doc.save(target, pretty=False)
         elif kind == "folder":
             target = base
-            if os.path.isdir(target + ".folder"):
-                shutil.rmtree(target + ".folder")
             st.doc.save(target, packaging="folder", pretty=False)
         elif kind == "folder-default":
             target = base
-            if os.path.isdir(target + ".folder"):
-                shutil.rmtree(target + ".folder")
             st.doc.save(target, packaging="folder")  # pretty by default
             kind = "folder"
             st.pretty = True
